@@ -180,7 +180,8 @@ def ndl_promises(x, tname, r):
         if isinstance(inner, (list, tuple, set, frozenset, dict)) and len(inner) > 1 and not (tname == "complex" and isinstance(inner, tuple) and len(inner) == 2):
             return "nested-multi-element-collection-collapsed-to-scalar"
     if tname in ("str", "sub:str") and isinstance(x, (list, tuple)) and len(x) == 1 and isinstance(x[0], (list, tuple)) and len(x[0]) > 1:
-        if not all(str(e) in str(r) for e in x[0]):
+        # (elements whose text carries a memory address - iterators, plain objects - differ between two decodes of the spec: not compared)
+        if not all(str(e) in str(r) for e in x[0] if " at 0x" not in str(e)):
             return "nested-collection-cut-down-in-text"
     if tname == "data" and isinstance(x, (list, tuple)) and len(x) > 1:
         return "multi-element-collection-collapsed-to-one-object"
